@@ -144,13 +144,33 @@ pub fn execute(plan: &Plan, ctx: &mut Ctx) {
                 }
                 "DY" => {
                     // convert a clone of the handle to a trait-object reference
+                    // (the argument is a variable, a block with a side effect, or an `Option::take`: it denotes
+                    // ONE Reference, and the result must denote that Reference's object)
+                    let mut complaint = None;
                     if let Some(H::C(r)) = handles[h].as_ref() {
                         let c = r.clone();
-                        let d: Reference<dyn Cellish> = to_dyn!(Cellish, c);
+                        let d: Reference<dyn Cellish> = match op.arg(1) {
+                            1 => {
+                                let evals = std::cell::Cell::new(0u32);
+                                let d = to_dyn!(Cellish, {
+                                    evals.set(evals.get() + 1);
+                                    c.clone()
+                                });
+                                if evals.get() != 1 {
+                                    complaint = Some(format!("to_dyn! evaluated its argument expression {} times: the result denotes the object of the last evaluation, not of the Reference that was passed", evals.get()));
+                                }
+                                d
+                            }
+                            2 => {
+                                let mut slot = Some(c);
+                                to_dyn!(Cellish, slot.take().unwrap())
+                            }
+                            _ => to_dyn!(Cellish, c),
+                        };
                         handles.push(Some(H::D(d)));
                         alive += 1;
                     }
-                    None
+                    complaint
                 }
                 "RD" => {
                     let got = handles[h].as_ref().unwrap().read();
@@ -270,7 +290,7 @@ pub fn generate(prop: &str, tier: Tier, rng: &mut Rng, seed: u64, run: u64) -> P
         match rng.below(10) {
             0 | 1 => plan.push("CL", &[h]),
             2 => plan.push("DR", &[h]),
-            3 | 4 => plan.push("DY", &[h]),
+            3 | 4 => plan.push("DY", &[h, rng.below(3) as i64]),
             5 => plan.push("RD", &[h]),
             6 => {
                 if rng.chance(0.5) {
